@@ -162,6 +162,15 @@ func (c *Conn) Session() Session {
 	return c.session
 }
 
+// bdat returns the pipe of the chunked transfer in progress, if any. The
+// field is also written by Close, which may run on another goroutine
+// (Server.Close).
+func (c *Conn) bdat() *io.PipeWriter {
+	c.locker.Lock()
+	defer c.locker.Unlock()
+	return c.bdatPipe
+}
+
 func (c *Conn) setSession(session Session) {
 	c.locker.Lock()
 	defer c.locker.Unlock()
@@ -236,7 +245,7 @@ func (c *Conn) handleGreet(enhanced bool, arg string) {
 	c.helo = domain
 
 	// RFC 5321: "An EHLO command MAY be issued by a client later in the session"
-	if c.session != nil {
+	if c.Session() != nil {
 		// RFC 5321: "... the SMTP server MUST clear all buffers
 		// and reset the state exactly as if a RSET command has been issued."
 		c.reset()
@@ -312,7 +321,7 @@ func (c *Conn) handleMail(arg string) {
 		c.writeResponse(502, EnhancedCode{5, 5, 1}, "Please introduce yourself first.")
 		return
 	}
-	if c.bdatPipe != nil {
+	if c.bdat() != nil {
 		c.writeResponse(502, EnhancedCode{5, 5, 1}, "MAIL not allowed during message transfer")
 		return
 	}
@@ -659,7 +668,7 @@ func (c *Conn) handleRcpt(arg string) {
 		c.writeResponse(502, EnhancedCode{5, 5, 1}, "Missing MAIL FROM command.")
 		return
 	}
-	if c.bdatPipe != nil {
+	if c.bdat() != nil {
 		c.writeResponse(502, EnhancedCode{5, 5, 1}, "RCPT not allowed during message transfer")
 		return
 	}
@@ -890,7 +899,9 @@ func (c *Conn) handleStartTLS() {
 		return
 	}
 
+	c.locker.Lock()
 	c.conn = tlsConn
+	c.locker.Unlock()
 	c.init()
 
 	// Reset all state and close the previous Session.
@@ -912,7 +923,7 @@ func (c *Conn) handleData(arg string) {
 		c.writeResponse(501, EnhancedCode{5, 5, 4}, "DATA command should not have any arguments")
 		return
 	}
-	if c.bdatPipe != nil {
+	if c.bdat() != nil {
 		c.writeResponse(502, EnhancedCode{5, 5, 1}, "DATA not allowed during message transfer")
 		return
 	}
@@ -999,18 +1010,28 @@ func (c *Conn) handleBdat(arg string) {
 		c.bdatStatus = c.createStatusCollector()
 	}
 
-	if c.bdatPipe == nil {
+	pipe := c.bdat()
+	if pipe == nil {
 		var r *io.PipeReader
-		r, c.bdatPipe = io.Pipe()
+		r, pipe = io.Pipe()
 
 		c.dataResult = make(chan error, 1)
-		c.bdatDone = make(chan struct{})
+		done := make(chan struct{})
 
 		// The goroutine may run (or finish) after the command loop has moved
 		// on to another transaction, so it must not look at the connection
 		// state: everything it needs is captured here.
-		session, recipients := c.Session(), c.recipients
-		status, dataResult, done := c.bdatStatus, c.dataResult, c.bdatDone
+		c.locker.Lock()
+		if c.closed {
+			// Server.Close got here first.
+			c.locker.Unlock()
+			return
+		}
+		c.bdatPipe, c.bdatDone = pipe, done
+		session := c.session
+		c.locker.Unlock()
+		recipients := c.recipients
+		status, dataResult := c.bdatStatus, c.dataResult
 
 		go func() {
 			defer close(done)
@@ -1046,7 +1067,7 @@ func (c *Conn) handleBdat(arg string) {
 	c.lineLimitReader.setLimit(0)
 
 	chunk := io.LimitReader(c.text.R, int64(size))
-	n, err := io.Copy(c.bdatPipe, chunk)
+	n, err := io.Copy(pipe, chunk)
 	if err == nil && n != int64(size) {
 		// The connection went away in the middle of the chunk.
 		err = io.ErrUnexpectedEOF
@@ -1078,7 +1099,7 @@ func (c *Conn) handleBdat(arg string) {
 	c.bytesReceived += int64(size)
 
 	if last {
-		c.bdatPipe.Close()
+		pipe.Close()
 
 		err := <-c.dataResult
 
